@@ -79,6 +79,9 @@ def run(prop, tier, seed, replay=None):
             mine = [r for r in rej if attribute(r["event"]) == prop]
             print(("VIOLATION property=%s replay=%s" % (prop, replay)) if mine else ("OK property=%s (replay)" % prop))
             return 1 if mine else 0
+        if rp["instance"].get("dd") or "routings" in rp["instance"].get("line", {}):
+            from . import p_sample
+            return p_sample.run(prop, tier, seed, replay)
         inp = os.path.join(wd, "replay.ndjson")
         core.write_lines(inp, [rp["instance"]["line"]])
         s = core.mt("replay-chol", inp, os.path.join(wd, "sum.json"), seed)
@@ -137,6 +140,14 @@ def run(prop, tier, seed, replay=None):
         c["violations_C16"] = c.get("violations_C16", 0) + s3["counters"].get("violations_C16", 0)
         if c["samples_with_stability_test_ok"] < 500:
             raise core.ToolError("vacuity guard: only %d samples with the stability test on" % c["samples_with_stability_test_ok"])
+    ddc = None
+    if prop == "C15":
+        # "... each to a relative accuracy proportional to the condition number": also in a user type of higher precision
+        from . import p_sample
+        rpath, rruns, rst, rn = p_sample.gen_routing(tier, wd, seed)
+        ddv, ddc = p_sample.dd_part(prop, tier, wd, seed, rpath)
+        violations += ddv
+        c["violations_C15"] = c.get("violations_C15", 0) + ddc.get("violations_C15", 0)
     cov = {
         "states": r.distinct + tstates, "transitions": r.generated,
         "traces_validated_against_impl": s1["evaluations"] + s2["evaluations"] - len(rej),
@@ -150,6 +161,7 @@ def run(prop, tier, seed, replay=None):
                       "states": r.distinct, "action_counts": r.coverage},
         "generator": {"module": "Gen_Chol", "lines": nl, "states": gst},
         "trace_validation": {"module": "Trace_Matrix", "events": s2["events"], "rejected": len(rej)},
+        "double_double_scalar": ddc,
         "harness_counters": c,
         "trusted_base": ["TLC 1.8", "num::BigRational Gaussian elimination (exact reference for double matrices)", "tracking scalar (value of det_q at the zero test)"],
     }
